@@ -656,6 +656,47 @@ def gen_dist(rng, tier):
     return chunk("dist", ops, 100)
 
 
+# ------------------------------------------------------------------ number formatting (round 2)
+def gen_numfmt(rng, tier):
+    """toString(d, precision) for every precision 0..20: doubles by bit pattern, short decimals
+    (k / 10^j, which have many more binary than decimal digits), dyadic values (exact in few decimal
+    digits), powers of ten and their neighbours (where the notation switches), ties of the rounding"""
+    ops = []
+    n = 12000 if tier == "thorough" else 1500
+    vals = []
+    for _ in range(n):
+        r = rng.random()
+        if r < 0.25:
+            bits = rng.getrandbits(64)
+            if (bits >> 52) & 0x7ff == 0x7ff:
+                continue
+            vals.append("%016x" % bits)
+        elif r < 0.5:
+            v = rng.choice([1, -1]) * rng.randint(0, 10 ** rng.randint(1, 8)) / 10 ** rng.randint(0, 9)
+            vals.append(dh(v))
+        elif r < 0.7:
+            v = rng.choice([1, -1]) * rng.randint(0, 2 ** rng.randint(1, 30)) / 2 ** rng.randint(0, 20)
+            vals.append(dh(v))
+        elif r < 0.85:
+            e = rng.randint(-12, 22)
+            v = 10.0 ** e
+            k = rng.choice([-2, -1, 0, 0, 1, 2])
+            bits = struct.unpack(">Q", struct.pack(">d", v))[0] + k
+            vals.append("%016x" % bits)
+        else:
+            # a tie of the rounding to p digits: d.ddd5 with an exactly representable 5
+            m = rng.randint(1, 10 ** rng.randint(1, 6)) * 10 + 5
+            v = m / 2 ** rng.randint(1, 4) if rng.random() < 0.5 else m * 0.5
+            vals.append(dh(v))
+    for h in vals:
+        ops.append("dbl.rt %s %d" % (h, rng.choice([0, 1, 2, 3, 5, 6, 6, 6, 8, 10, 12, 15, 16, 17, 17, 18, 20])))
+    for h in ["0000000000000000", "8000000000000000", "3ff0000000000000", "4024000000000000", "40c3880000000000",
+              "412e848000000000", "3f1a36e2eb1c432d", "3f847ae147ae147b", "3fb999999999999a"]:
+        for p in (0, 1, 5, 6, 7, 17):
+            ops.append("dbl.rt %s %d" % (h, p))
+    return chunk("fmt", ops, 300)
+
+
 # ------------------------------------------------------------------ entry points
 def generate(seed, tier):
     rng = random.Random(seed)
@@ -669,6 +710,7 @@ def generate(seed, tier):
     cases += gen_nested(rng2, tier)
     cases += gen_table(rng2, tier)
     cases += gen_dist(rng2, tier)
+    cases += gen_numfmt(rng2, tier)
     return cases
 
 
@@ -704,7 +746,10 @@ def compare(op_line, impl, model):
             return False
         return a[0] == b[0] and a[1] == b[1] and same_double(a[2], b[2]) and a[3] == b[3]
     if op == "dbl.rt":
-        return impl.split()[:1] == model.split()[:1]
+        a, b = impl.split(), model.split()
+        if len(a) != 2 or len(b) != 2:
+            return False
+        return (b[0] == "*" or a[0] == b[0]) and a[1] == b[1]     # the text is modelled; the double read back at 17 digits
     if op == "dist.rt":
         return True                               # explored: the model has no answer of its own ("?")
     return " ".join(impl.split()) == " ".join(model.split())
